@@ -2,6 +2,7 @@
 package main
 
 import (
+	"bytes"
 	"context"
 	"encoding/json"
 	"fmt"
@@ -140,6 +141,19 @@ func facts(repo string, w io.Writer) error {
 	if err := emit("buf_size_last", "(m_start m_end S lastSubrangeLength : Z)", "Z", as[1]); err != nil {
 		return err
 	}
+	// the error tests of fetchMissingSubranges: every one is a plain `err != nil` (no exemption for
+	// io.ErrUnexpectedEOF after io.ReadFull: a short body must fail the read)
+	ec, err := storegwutil.IfConds(s, "CachingBucket.fetchMissingSubranges", "err")
+	if err != nil {
+		return err
+	}
+	plain := len(ec) >= 2
+	for _, c := range ec {
+		if s.ExprString(c) != "err != nil" {
+			plain = false
+		}
+	}
+	fmt.Fprintf(w, "(* fetchMissingSubranges: %d error tests, all of them `err != nil` *)\nDefinition read_full_err_test_ok : bool := %v.\n", len(ec), plain)
 	// statement order in cachedGetRange: attributes are read before anything else, the
 	// past-the-end test precedes the subrange arithmetic
 	evs, err := s.CallOrder("CachingBucket.cachedGetRange")
@@ -225,13 +239,27 @@ type recBucket struct {
 	objstore.Bucket
 	mtx   sync.Mutex
 	calls [][2]int64
+	cut   int // >= 0: fault injection, bodies of GetRange end after cut bytes
 }
 
 func (b *recBucket) GetRange(ctx context.Context, name string, off, length int64) (io.ReadCloser, error) {
 	b.mtx.Lock()
 	b.calls = append(b.calls, [2]int64{off, length})
+	cut := b.cut
 	b.mtx.Unlock()
-	return b.Bucket.GetRange(ctx, name, off, length)
+	rc, err := b.Bucket.GetRange(ctx, name, off, length)
+	if err != nil || cut < 0 {
+		return rc, err
+	}
+	defer rc.Close()
+	data, err := io.ReadAll(rc)
+	if err != nil {
+		return nil, err
+	}
+	if cut < len(data) {
+		data = data[:cut]
+	}
+	return io.NopCloser(bytes.NewReader(data)), nil // fewer bytes than requested, then EOF
 }
 
 // ---- input -------------------------------------------------------------------
@@ -242,6 +270,9 @@ type opIn struct {
 	Off  int64  `json:"off,omitempty"`
 	Len  int64  `json:"len,omitempty"`
 	Rec  bool   `json:"rec,omitempty"`
+	// getrange: Fault = the body of every underlying GetRange issued during this operation ends after Cut bytes
+	Fault bool `json:"fault,omitempty"`
+	Cut   int  `json:"cut,omitempty"`
 	// get: size of the buffer the object is read with (0 = 512, like the first read of io.ReadAll)
 	Chunk int `json:"chunk,omitempty"`
 }
@@ -476,7 +507,7 @@ func run(raw json.RawMessage) (common.Case, error) {
 		objsCoq = append(objsCoq, common.Pair(common.N(t.id(n)), bytesCoq(data)))
 	}
 	lc := &lossyCache{data: map[string][]byte{}, r: rand.New(rand.NewSource(in.CacheSeed)), pDrop: in.Drop, pEvict: in.Evict, pLose: in.Lose}
-	rb := &recBucket{Bucket: inmem}
+	rb := &recBucket{Bucket: inmem, cut: -1}
 	cfg := cache.NewCachingBucketConfig()
 	all := func(string) bool { return true }
 	const ttl = 24 * time.Hour
@@ -502,10 +533,17 @@ func run(raw json.RawMessage) (common.Case, error) {
 	merged, partial := false, false
 	for _, op := range in.Ops {
 		lc.hits, lc.stores, rb.calls = nil, nil, nil
+		faulty := op.Kind == "getrange" && op.Fault
+		if faulty {
+			rb.cut = op.Cut
+		}
 		got := doOp(ctx, cb, op)
+		rb.cut = -1
 		hits, stores, calls := lc.hits, lc.stores, rb.calls
 		want := doOp(ctx, inmem, op)
-		if !got.eq(want) && c.GoPred == "" {
+		if faulty && got.kind == "err" {
+			// an error is an acceptable answer to a read whose body was cut short
+		} else if !got.eq(want) && c.GoPred == "" {
 			c.GoPred = fmt.Sprintf("%s(%q, off=%d, len=%d) through the caching bucket = %s; the underlying bucket = %s", op.Kind, op.Name, op.Off, op.Len, got, want)
 			c.Sig = op.Kind + "-differs"
 			if got.kind == "panic" {
@@ -555,6 +593,10 @@ func run(raw json.RawMessage) (common.Case, error) {
 		}
 		// truth for iter: what the underlying bucket lists (data for the model)
 		truth := "[]"
+		if faulty {
+			truth = common.List([]string{common.N(uint64(op.Cut))})
+			classes["fault"] = true
+		}
 		if op.Kind == "iter" && want.kind == "list" {
 			var l []string
 			for _, s := range want.list {
@@ -573,7 +615,7 @@ func run(raw json.RawMessage) (common.Case, error) {
 	}
 	c.Obs = obs
 	c.Nontrivial = partial && len(in.Ops) >= 3
-	c.Class = fmt.Sprintf("ops=%s/drop=%v/gaps=%v", bucketN(len(in.Ops)), in.Drop > 0, merged)
+	c.Class = fmt.Sprintf("ops=%s/drop=%v/gaps=%v/fault=%v", bucketN(len(in.Ops)), in.Drop > 0, merged, classes["fault"])
 	return c, nil
 }
 
@@ -654,9 +696,48 @@ func genGets(r *rand.Rand, tier string) input {
 	return in
 }
 
+// genFault: a GetRange whose underlying body is cut short, then healthy reads of the same and
+// of overlapping ranges. One merged request at most (MaxSubRequests = 1), so that a failed
+// fetch is deterministic.
+func genFault(r *rand.Rand, tier string) input {
+	var in input
+	in.SubrangeSize = common.Pick(r, int64(1), 2, 4, 5, 8, 16)
+	in.MaxSubRequests = 1
+	in.MaxCacheable = 0
+	in.CacheSeed = r.Int63n(1 << 30)
+	in.Drop = common.Pick(r, 0, 0, 0, 25)
+	size := 1 + r.Intn(60)
+	in.Objects = map[string]int{"top": size}
+	rng := func() (int64, int64) {
+		off := r.Int63n(int64(size))
+		return off, 1 + r.Int63n(int64(size)-off+3)
+	}
+	if r.Intn(2) == 0 { // warm a part of the cache first
+		off, l := rng()
+		in.Ops = append(in.Ops, opIn{Kind: "getrange", Name: "top", Off: off, Len: l})
+	}
+	off, l := rng()
+	cut := r.Intn(int(l) + 2)
+	if r.Intn(3) == 0 {
+		cut = 0
+	}
+	in.Ops = append(in.Ops, opIn{Kind: "getrange", Name: "top", Off: off, Len: l, Fault: true, Cut: cut})
+	in.Ops = append(in.Ops, opIn{Kind: "getrange", Name: "top", Off: off, Len: l})
+	if r.Intn(2) == 0 {
+		in.Ops = append(in.Ops, opIn{Kind: "getrange", Name: "top", Off: off, Len: l, Fault: true, Cut: r.Intn(int(l) + 2)})
+	}
+	o2, l2 := rng()
+	in.Ops = append(in.Ops, opIn{Kind: "getrange", Name: "top", Off: o2, Len: l2})
+	in.Ops = append(in.Ops, opIn{Kind: "getrange", Name: "top", Off: 0, Len: int64(size)})
+	return in
+}
+
 func genOne(r *rand.Rand, tier string) input {
 	if r.Intn(4) == 0 {
 		return genSparse(r, tier)
+	}
+	if r.Intn(7) == 0 {
+		return genFault(r, tier)
 	}
 	if r.Intn(6) == 0 {
 		return genGets(r, tier)
